@@ -450,6 +450,7 @@ def main(argv):
     log('[%s] built %s in %.1fs' % (prop, ','.join(bins), build_s))
 
     candidates = []
+    infra = []      # workers that died without leaving a replayable case
     statfiles = []
     inconclusive = []
     ubsan = set()
@@ -676,10 +677,8 @@ def main(argv):
                 candidates.append(Candidate(crash, c, out[-4000:],
                                             'rapidcheck-crash'))
             else:
-                log(out[-4000:])
-                log('[%s] worker %s failed without leaving a case (rc=%s)' %
-                    (prop, tag, rc_))
-                return 2
+                infra.append('worker %s died without leaving a case (rc=%s): %s'
+                             % (tag, rc_, out[-600:].replace('\n', ' | ')))
 
     # -------------------------------- replay generated cases (MSan etc.)
     if dump_configs and dumps and not stop_now():
@@ -722,10 +721,8 @@ def main(argv):
                 candidates.append(Candidate(crash, c, out[-4000:],
                                             'dump-replay-crash'))
             else:
-                log(out[-4000:])
-                log('[%s] %s failed without leaving a case (rc=%s)' %
-                    (prop, tag, rc_))
-                return 2
+                infra.append('%s died without leaving a case (rc=%s): %s'
+                             % (tag, rc_, out[-600:].replace('\n', ' | ')))
 
     # ----------------------------------------------------------- libFuzzer
     if use_fuzz and not stop_now():
@@ -879,4 +876,9 @@ def main(argv):
             log(txt[-1500:])
             log('VIOLATION property=%s replay=%s' % (prop, dst))
         return 1
+    if infra:
+        # not a violation we can replay, but not a clean run either
+        for line in infra[:10]:
+            log('[%s] infrastructure failure: %s' % (prop, line))
+        return 2
     return 0
